@@ -1,10 +1,13 @@
 import Infretis.Lemmas.EngineLoopsPath
+import Infretis.Lemmas.EnginePropagate
 /-!
 # C12 — every engine returns the trajectory it actually ran
 
 Property theorems only.  Models: `Infretis/Model/AddToPath.lean` (`add_to_path`, shared) and
 `Infretis/Model/EngineLoops.lean` (`_propagate_from` of LAMMPS/CP2K = `extRun`, ASE/TurtleMD = `inproc`,
-GROMACS = `gmxRun`).  Lemmas: `Infretis/Lemmas/EngineLoops{Feed,Ext,Inproc}.lean`.
+GROMACS = `gmxRun`), `Infretis/Model/EnginePropagate.lean` (the `propagate` wrapper, `execute_command`,
+`calculate_order`, `snapshot_to_system`, whole-`propagate` compositions; last section of this file).
+Lemmas: `Infretis/Lemmas/EngineLoops{Feed,Ext,Inproc,Path}.lean`, `Infretis/Lemmas/EnginePropagate.lean`.
 
 All loop theorems hold for EVERY schedule `sched : Nat → World` of the external program (which frames are
 visible and whether the process is alive at each `sleep`/`poll` of the engine), every exit code, frame list,
@@ -477,5 +480,286 @@ example : (extRun (.lammps .repaired) demoCfg
       (fun t => { file := false, vis := 0, vis2 := 0, alive := decide (t < 5) }) 0 demoFrames 50).raised = some .index ∧
     (∀ t, ((fun t => { file := false, vis := 0, vis2 := 0, alive := decide (t < 5) } : Sched) t).file = false) := by
   refine ⟨by decide +kernel, fun _ => rfl⟩
+
+/-! ## Extension pass: the whole `propagate` (wrapper + loop), `execute_command`, CP2K's own trajectory file
+
+Model: `Infretis/Model/EnginePropagate.lean`.  `propagateInproc` / `propagateExt` / `propagateGmx` are the functions
+the driver runs for the ops `propinproc`, `propext`, `propgmx`; the tie feeds them the PHASE POINT (file, index,
+`vel_rev`) and `reverse`, not a pre-digested start frame. -/
+
+open Infretis.EnginePropagate
+
+/-- **`execute_command` raises iff the return code is non-zero** (exit codes and deaths by signal alike); it returns
+    only `0`; the log files are removed exactly when it returns. -/
+theorem execute_command_raises_iff_nonzero (rc : Int) :
+    ((execCommand rc).raised = true ↔ rc ≠ 0) ∧
+    ((execCommand rc).raised = false → (execCommand rc).ret = some 0 ∧ (execCommand rc).logsKept = false) ∧
+    ((execCommand rc).raised = true → (execCommand rc).ret = none ∧ (execCommand rc).logsKept = true) := by
+  unfold execCommand
+  by_cases h : rc = 0
+  · subst h; simp
+  · simp [h]
+
+example : (execCommand (-11)).raised = true ∧ (execCommand 0).ret = some 0 ∧ (execCommand 3).logsKept = true := by decide
+
+/-- **The `propagate` wrapper**: the start frame is taken from the phase point's OWN `(file, idx)` (extract, or a copy
+    when `idx` is `None`, or nothing when the file already is the target), velocities are reversed exactly when
+    `reverse != vel_rev`, and `_propagate_from` gets `(initial_conf, 0)` with `vel_rev = reverse`. -/
+theorem propagate_setup_spec (reverse : Bool) (p : Point) :
+    let su := propagateSetup reverse p
+    su.sys = ⟨su.initialConf, some 0, reverse⟩ ∧ su.backward = reverse ∧
+    (su.calls.take (dumpConfig p.file p.idx .conf).length = dumpConfig p.file p.idx .conf) ∧
+    ((Call.reverse .conf .rconf ∈ su.calls) ↔ reverse ≠ p.velRev) ∧
+    (su.initialConf = if reverse ≠ p.velRev then FName.rconf else FName.conf) ∧
+    (∀ i, p.idx = some i → su.calls.head? = some (.extract p.file i .conf)) := by
+  obtain ⟨file, idx, vr⟩ := p
+  simp only
+  refine ⟨propagateSetup_sys _ _, ?_, ?_, ?_, ?_, ?_⟩
+  · unfold propagateSetup; simp only; split <;> rfl
+  · unfold propagateSetup; simp only; split <;> simp
+  · unfold propagateSetup dumpConfig
+    cases reverse <;> cases vr <;> cases idx <;> simp <;> split <;> simp
+  · unfold propagateSetup
+    cases reverse <;> cases vr <;> simp
+  · intro i hi
+    cases hi
+    unfold propagateSetup dumpConfig
+    cases reverse <;> cases vr <;> simp
+
+example : (propagateSetup true ⟨.user 7, some 3, false⟩).calls = [.extract (.user 7) 3 .conf, .reverse .conf .rconf] ∧
+    (propagateSetup true ⟨.user 7, none, true⟩).calls = [.copy (.user 7) .conf] ∧
+    (propagateSetup false ⟨.conf, none, false⟩).calls = [] := by decide
+
+/-- **First frame is that point — in-process engines, composed `propagate`, forward and backward, every
+    `vel_rev`**: if the phase point refers to frame `f`, the returned path's first entry has index 0, `f`'s own
+    coordinates and box, and the order function saw the point's own physical velocity `(-1)^vel_rev · v`. -/
+theorem inproc_propagate_first_frame_is_start (c : Cfg) (sub : Nat) (hsub : 0 < sub) (step : Frame → Frame) (ase : Bool)
+    (reverse : Bool) (st : Store) (p : Point) (f : Frame) (hp : PointHas st p f) :
+    ∃ out, propagateInproc c sub step ase reverse st p = some out ∧
+      ∀ (h0 : 0 < out.res.es.length),
+        out.res.es[0] = { idx := 0, cid := f.cid, bid := f.bid, vel := velSeen p.velRev f.vel,
+                          order := c.ord f.cid f.bid (velSeen p.velRev f.vel) } := by
+  have hs := startFrame_spec reverse st p f hp
+  refine ⟨_, propagateInproc_eq c sub step ase reverse st p _ hs, ?_⟩
+  intro h0
+  have hk := inproc_sampled { c with rev := (propagateSetup reverse p).sys.velRev } sub hsub
+    (iter step (if reverse != p.velRev then flipV f else f)) ase 0 h0
+  rw [hk]
+  simp only [Nat.zero_mul, iter, mkEntry, propagateSetup_velRev, start_velocity_seen,
+    (start_cid_bid reverse p.velRev f).1, (start_cid_bid reverse p.velRev f).2]
+
+/-- **… and the k-th frame is the state after `k·subcycles` steps from that point** (composed `propagate`) -/
+theorem inproc_propagate_frame_is_own_sample (c : Cfg) (sub : Nat) (hsub : 0 < sub) (step : Frame → Frame) (ase : Bool)
+    (reverse : Bool) (st : Store) (p : Point) (f : Frame) (hp : PointHas st p f) :
+    ∃ out, propagateInproc c sub step ase reverse st p = some out ∧
+      ∀ k (hk : k < out.res.es.length),
+        let g := iter step (if reverse != p.velRev then flipV f else f) (k * sub)
+        out.res.es[k] = { idx := k, cid := g.cid, bid := g.bid, vel := velSeen reverse g.vel,
+                          order := c.ord g.cid g.bid (velSeen reverse g.vel) } := by
+  have hs := startFrame_spec reverse st p f hp
+  refine ⟨_, propagateInproc_eq c sub step ase reverse st p _ hs, ?_⟩
+  intro k hk
+  have := inproc_sampled { c with rev := (propagateSetup reverse p).sys.velRev } sub hsub
+    (iter step (if reverse != p.velRev then flipV f else f)) ase k hk
+  rw [this]
+  simp only [mkEntry, propagateSetup_velRev]
+
+/-- free flight on a line: `cid` advances by `vel` per step -/
+def demoStep (f : Frame) : Frame := { f with cid := (f.cid + f.vel).toNat }
+
+def demoStore : Store := fun n => if n = .user 1 then [⟨50, 100, 9⟩, ⟨3, 100, 1⟩] else []
+
+/-- shooting backward from frame 1 of file `user 1` (stored velocity +1, `vel_rev = false`): the file is extracted,
+    reversed, the dynamics runs with −1, and the order function sees +1·(−1)·(−1) … i.e. the point's own velocity -/
+example : ((propagateInproc { demoCfg with maxlen := 4 } 1 demoStep true true demoStore ⟨.user 1, some 1, false⟩).map
+      (fun o => (o.setup.calls, o.res.es.map (fun e => (e.idx, e.cid, e.vel)))))
+    = some ([.extract (.user 1) 1 .conf, .reverse .conf .rconf], [(0, 3, 1), (1, 2, 1), (2, 1, 1), (3, 0, 1)]) ∧
+    PointHas demoStore ⟨.user 1, some 1, false⟩ ⟨3, 100, 1⟩ := by
+  refine ⟨by decide +kernel, by unfold PointHas; decide⟩
+
+/-- **Backward propagation retraces the forward trajectory — composed `propagate`, hypothesis on the ONE-STEP map
+    only**: for a time-reversible integrator step, shooting backward (`reverse = true`) from frame `N` of the forward
+    trajectory file (which holds the forward run's `N`-th sample, `vel_rev = false`) gives a path whose `k`-th frame
+    has the coordinates, box, seen velocity and order parameter of the forward path's frame `N − k`. -/
+theorem propagate_backward_retraces_forward (c : Cfg) (sub : Nat) (hsub : 0 < sub) (step : Frame → Frame)
+    (hrev : Reversible step) (ase : Bool) (st stB : Store) (p : Point) (hpv : p.velRev = false) (f : Frame)
+    (hp : PointHas st p f) (t N : Nat) (hfile : (stB (.user t))[N]? = some (iter step f (N * sub))) :
+    ∃ outF outB, propagateInproc c sub step ase false st p = some outF ∧
+      propagateInproc c sub step ase true stB ⟨.user t, some N, false⟩ = some outB ∧
+      ∀ k, k ≤ N → ∀ (hb : k < outB.res.es.length) (hf : N - k < outF.res.es.length),
+        (outB.res.es[k]).cid = (outF.res.es[N - k]).cid ∧ (outB.res.es[k]).bid = (outF.res.es[N - k]).bid ∧
+        (outB.res.es[k]).vel = (outF.res.es[N - k]).vel ∧ (outB.res.es[k]).order = (outF.res.es[N - k]).order := by
+  have hsF := startFrame_spec false st p f hp
+  have hsB := startFrame_spec true stB ⟨.user t, some N, false⟩ (iter step f (N * sub)) hfile
+  rw [hpv] at hsF
+  simp only [bne_self_eq_false, Bool.false_eq_true, if_false] at hsF
+  simp only [Bool.true_bne, Bool.not_false, if_true] at hsB
+  refine ⟨_, _, propagateInproc_eq c sub step ase false st p _ hsF,
+    propagateInproc_eq c sub step ase true stB _ _ hsB, ?_⟩
+  intro k hkN hb hf
+  simp only [propagateSetup_velRev] at hb hf ⊢
+  exact backward_retraces_forward c sub hsub (iter step f) (iter step (flipV (iter step f (N * sub)))) N ase
+    (fun i hi => reversible_iter step hrev f (N * sub) i hi) k hkN hb hf
+
+/-- leap-frog-like reversible toy step: `cid += vel` is undone by flipping the velocity and stepping again -/
+example : ∀ x : Frame, 0 ≤ (x.cid : Int) + x.vel → demoStep (flipV (demoStep x)) = flipV x := by
+  intro x hx
+  cases x with
+  | mk cid bid vel =>
+    simp only [demoStep, flipV, Frame.mk.injEq, and_true]
+    simp only at hx
+    omega
+
+/-- **First frame is that point — LAMMPS / CP2K, composed `propagate`** (assumption on the MD program only: the
+    first frame it writes is the configuration it was started from): index 0, own coordinates, own physical
+    velocity; the box is the one the entry names (LAMMPS repaired pairing: the frame's own; CP2K: the box read
+    before the run). -/
+theorem ext_propagate_first_frame_is_start (kind : Kind) (c : Cfg) (sched : Sched) (code : Int) (prog : Frame → List Frame)
+    (hprog : ∀ g, (prog g)[0]? = some g) (fuel : Nat) (reverse : Bool) (st : Store) (p : Point) (f : Frame)
+    (hp : PointHas st p f) :
+    ∃ out, propagateExt kind c sched code prog fuel reverse st p = some out ∧
+      ∀ (h0 : 0 < out.res.es.length),
+        (out.res.es[0]).idx = 0 ∧ (out.res.es[0]).cid = f.cid ∧ (out.res.es[0]).vel = velSeen p.velRev f.vel ∧
+        (out.res.es[0]).order = c.ord f.cid (out.res.es[0]).bid (velSeen p.velRev f.vel) ∧
+        (kind = .lammps .repaired → (out.res.es[0]).bid = f.bid) := by
+  have hs := startFrame_spec reverse st p f hp
+  refine ⟨_, propagateExt_eq kind c sched code prog fuel reverse st p _ hs, ?_⟩
+  intro h0
+  simp only [propagateSetup_velRev] at h0 ⊢
+  obtain ⟨g, hg, h1, h2, h3, h4⟩ := frames_in_order_once kind { c with rev := reverse } sched code
+    (prog (if reverse != p.velRev then flipV f else f)) fuel 0 h0
+  rw [hprog] at hg
+  cases hg
+  refine ⟨h1, ?_, ?_, ?_, ?_⟩
+  · rw [h2]; exact (start_cid_bid reverse p.velRev f).1
+  · rw [h3]; exact start_velocity_seen reverse p.velRev f
+  · rw [h4]
+    simp only [start_velocity_seen, (start_cid_bid reverse p.velRev f).1]
+  · intro hk
+    subst hk
+    obtain ⟨g', hg', he⟩ := lammps_frame_uses_own_box { c with rev := reverse } sched code
+      (prog (if reverse != p.velRev then flipV f else f)) fuel 0 h0
+    rw [hprog] at hg'
+    cases hg'
+    rw [he]
+    exact (start_cid_bid reverse p.velRev f).2
+
+example : (∀ g : Frame, ((fun g => [g, demoStep g]) g)[0]? = some g) ∧
+    ((propagateExt (.lammps .repaired) demoCfg (demoSched (fun _ => 2) 9) 0 (fun g => [g, demoStep g]) 50 true demoStore
+      ⟨.user 1, some 1, false⟩).map (fun o => o.res.es.map (fun e => (e.idx, e.cid, e.bid, e.vel))))
+      = some [(0, 3, 100, 1), (1, 2, 100, 1)] := by
+  refine ⟨fun _ => rfl, by decide +kernel⟩
+
+/-- **CP2K: the order stored with frame `k` is the one recomputed from the k-th configuration the path REFERS to** —
+    full, every schedule, varying boxes in CP2K's own output or not: the referenced file `{name}.xyz` is written by
+    the engine itself (cp2k.py:935), frame `k` of it holds the `k`-th position frame, the `k`-th velocity frame and
+    the box read before the run, and the stored order is the order function of exactly that frame with the
+    `vel_rev` sign.  (Supersedes the constant-box hypothesis of `cp2k_frame_uses_own_box_partial` for the words
+    "recomputed from the configuration it references"; what CP2K itself may have used as a cell is not read.) -/
+theorem cp2k_referenced_frame_recomputes (box0 : Nat) (c : Cfg) (sched : Sched) (code : Int) (frames : List Frame)
+    (fuel : Nat) (k : Nat) (hk : k < (extRun (.cp2k box0) c sched code frames fuel).es.length) :
+    ∃ f g, frames[k]? = some f ∧
+      (cp2kTrajFile c.rev (extRun (.cp2k box0) c sched code frames fuel).es)[k]? = some g ∧
+      g = ⟨f.cid, box0, f.vel⟩ ∧
+      ((extRun (.cp2k box0) c sched code frames fuel).es[k]).idx = k ∧
+      ((extRun (.cp2k box0) c sched code frames fuel).es[k]).order = c.ord g.cid g.bid (velSeen c.rev g.vel) := by
+  obtain ⟨f, h1, h2⟩ := cp2k_pairs_position_with_own_velocity box0 c sched code frames fuel k hk
+  refine ⟨f, ⟨f.cid, box0, f.vel⟩, h1, ?_, rfl, by rw [h2]; rfl, by rw [h2]; rfl⟩
+  simp only [cp2kTrajFile, List.getElem?_map, List.getElem?_eq_getElem hk, Option.map_some, h2, mkEntry,
+    unSee_velSeen]
+
+/-- CP2K's own output claims boxes 30, 31, 32; the path refers to frames that all carry the box 30 read before the run -/
+example : cp2kTrajFile true (extRun (.cp2k 30) { demoCfg with rev := true }
+      (fun t => { file := true, vis := t / 2 + 1, vis2 := t / 2, alive := decide (t < 20) }) 0
+      [⟨1, 30, 5⟩, ⟨2, 31, -6⟩, ⟨9, 32, 7⟩] 50).es = [⟨1, 30, 5⟩, ⟨2, 30, -6⟩, ⟨9, 30, 7⟩] := by
+  decide +kernel
+
+/-- **GROMACS, whole `propagate`: a failing `gmx grompp` or `gmx energy` raises** — a normal return needs return
+    code 0 from both tools; if grompp fails mdrun is never started and the path stays empty. -/
+theorem gromacs_propagate_tool_failure_raises (gv : Variant) (c : Cfg) (sched : Sched) (code : Int) (need0 : Nat)
+    (prog : Frame → List Frame) (fuel : Nat) (gromppRc energyRc : Int) (reverse : Bool) (st : Store) (p : Point)
+    (out : Out) (h : propagateGmx gv c sched code need0 prog fuel gromppRc energyRc reverse st p = some out) :
+    (out.res.raised = none → gromppRc = 0 ∧ energyRc = 0) ∧
+    (gromppRc ≠ 0 → out.started = false ∧ out.res.raised = some .runtime ∧ out.res.es = []) := by
+  unfold propagateGmx at h
+  simp only at h
+  cases hs : startFrame reverse st p with
+  | none => simp [hs] at h
+  | some f0 =>
+    simp only [hs] at h
+    by_cases hg : gromppRc = 0
+    · subst hg
+      simp only [execCommand, ne_eq, not_true_eq_false, if_false, Bool.false_eq_true] at h
+      refine ⟨?_, fun hh => absurd rfl hh⟩
+      intro hr
+      refine ⟨rfl, ?_⟩
+      generalize gmxExt gv _ sched code need0 (prog f0) fuel = r at h
+      cases hrr : r.raised with
+      | some e =>
+        simp only [hrr, Option.some.injEq] at h
+        subst h
+        simp [hrr] at hr
+      | none =>
+        simp only [hrr] at h
+        by_cases he : energyRc = 0
+        · exact he
+        · simp only [he, not_false_eq_true, if_true, Option.some.injEq] at h
+          subst h
+          simp at hr
+    · simp only [execCommand, ne_eq, hg, not_false_eq_true, if_true, Option.some.injEq] at h
+      subst h
+      refine ⟨?_, fun _ => ⟨rfl, rfl, rfl⟩⟩
+      intro hr
+      simp [notStarted] at hr
+
+/-- **GROMACS, whole `propagate`: mdrun is stopped whenever `propagate` returns or raises** (every schedule, exit code,
+    tool return codes), or it was never started. -/
+theorem gromacs_propagate_program_stopped (gv : Variant) (c : Cfg) (sched : Sched) (code : Int) (need0 : Nat)
+    (prog : Frame → List Frame) (fuel : Nat) (gromppRc energyRc : Int) (reverse : Bool) (st : Store) (p : Point)
+    (out : Out) (h : propagateGmx gv c sched code need0 prog fuel gromppRc energyRc reverse st p = some out)
+    (hfuel : out.res.raised ≠ some .fuel) : out.started = false ∨ out.res.dead = true := by
+  unfold propagateGmx at h
+  simp only at h
+  cases hs : startFrame reverse st p with
+  | none => simp [hs] at h
+  | some f0 =>
+    simp only [hs] at h
+    split at h
+    · simp only [Option.some.injEq] at h; subst h; exact Or.inl rfl
+    · right
+      have hd := gromacs_program_stopped_on_return gv { c with rev := (propagateSetup reverse p).sys.velRev } sched code
+        need0 (prog f0) fuel
+      generalize gmxExt gv _ sched code need0 (prog f0) fuel = r at h hd
+      cases hrr : r.raised with
+      | some e =>
+        simp only [hrr, Option.some.injEq] at h
+        subst h
+        exact hd hfuel
+      | none =>
+        simp only [hrr] at h
+        have hdd := hd (by rw [hrr]; simp)
+        split at h <;> (simp only [Option.some.injEq] at h; subst h; exact hdd)
+
+/-- grompp fails (return code 1): RuntimeError, mdrun never started; energy fails after a complete run: RuntimeError
+    with mdrun stopped and the three frames in the path -/
+example : ((propagateGmx .repaired demoCfg (demoSched (fun t => t / 3) 30) 0 1 (fun g => [g, demoStep g, ⟨9, 100, 1⟩]) 60 1 0
+      false demoStore ⟨.user 1, some 1, false⟩).map (fun o => (o.started, o.res.raised))) = some (false, some .runtime) ∧
+    ((propagateGmx .repaired demoCfg (demoSched (fun t => t / 3) 30) 0 1 (fun g => [g, demoStep g, ⟨9, 100, 1⟩]) 60 0 2
+      false demoStore ⟨.user 1, some 1, false⟩).map (fun o => (o.started, o.res.raised, o.res.dead, o.res.es.length)))
+      = some (true, some .runtime, true, 3) := by
+  decide +kernel
+
+/-- **Why "IndexError ⇒ program stopped" cannot be stated for every input** (record of an observation, model level and
+    confirmed on the real `LAMMPSEngine` with fake lmp): with a length limit of 0 `add_to_path` raises IndexError
+    on the first frame (`path.phasepoints[-1]` of an empty path) while the program is alive; the LAMMPS/CP2K loops have
+    no `try/finally`, so the exception leaves `_propagate_from` with the program still running (GROMACS stops mdrun
+    in `__exit__`: `gromacs_program_stopped_on_return` covers every error).  The same holds for ANY exception raised
+    inside the loop body (order function, reader).  `maxlen = 0` is not produced by the moves (`maxlen ≥ 2` there). -/
+theorem lammps_index_error_leaves_program_running_counterexample :
+    let R := extRun (.lammps .repaired) { demoCfg with maxlen := 0 } (demoSched (fun _ => 2) 30) 0 demoFrames 50
+    R.raised = some .index ∧ R.dead = false ∧ R.killed = false ∧ R.es = [] ∧
+    (gmxExt .repaired { demoCfg with maxlen := 0 } (demoSched (fun _ => 2) 30) 0 1 demoFrames 50).raised = some .index ∧
+    (gmxExt .repaired { demoCfg with maxlen := 0 } (demoSched (fun _ => 2) 30) 0 1 demoFrames 50).dead = true := by
+  decide +kernel
 
 end Infretis.C12
